@@ -44,16 +44,70 @@ def r1_option_mapping(w):
     if cfg_adt is None:
         raise AnchorMissing('Config ADT')
     fields = [f['name'] for f in cfg_adt['variants'][0]['fields']]
-    aggs = []
-    for bi, blk in enumerate(b.blocks):
-        for si, s in enumerate(blk['stmts']):
-            if s['s'] == 'assign' and s['rv']['r'] == 'agg' and s['rv'].get('adt') == CONFIG_ID:
-                aggs.append((bi, si, s))
-    # the returned value must be one of these aggregates
-    ret = v.pv.peel(v.pv._origins_local(0, frozenset()))
-    if len(aggs) != 1 or not all(o[0] == 'agg' for o in ret):
-        r.bad({'fn': b.short}, '%s|shape' % b.short, 'option mapping does not return a single Config literal (returns %s)' % sorted(v.describe(o) for o in ret), b.loc())
+    # straight-line evaluation of the function: per Config-typed local, where each field comes from.  Accepted shapes: one
+    # Config literal (with or without `..Default::default()`), or a default()/new() value whose fields are then assigned.
+    def is_cfg(l):
+        return b.locals[l]['ty'].get('id') == CONFIG_ID
+    state = {}
+    bb, seen, shape_bad = 0, set(), None
+    last_span = None
+    while True:
+        if bb in seen:
+            shape_bad = 'a loop'
+            break
+        seen.add(bb)
+        blk = b.blocks[bb]
+        for st in blk['stmts']:
+            if st['s'] != 'assign' or not is_cfg(st['p']['l']):
+                continue
+            l, proj, rv = st['p']['l'], st['p']['proj'], st['rv']
+            if not proj:
+                if rv['r'] == 'agg' and rv.get('adt') == CONFIG_ID:
+                    state[l] = {name: v.describe_operand(rv['ops'][i]) for i, name in enumerate(fields)}
+                    last_span = st['span']
+                elif rv['r'] == 'use' and rv['op']['o'] in ('move', 'copy') and not rv['op']['p']['proj'] and rv['op']['p']['l'] in state:
+                    state[l] = dict(state[rv['op']['p']['l']])
+                else:
+                    shape_bad = 'a Config value built by %s' % rv['r']
+            elif len(proj) == 1 and proj[0].get('p') == 'field' and l in state:
+                if rv['r'] == 'use':
+                    state[l][fields[proj[0]['i']]] = v.describe_operand(rv['op'])
+                else:
+                    state[l][fields[proj[0]['i']]] = 'rvalue:' + rv['r']
+                last_span = st['span']
+            else:
+                shape_bad = 'a partial write the evaluator does not follow'
+        t = blk['term']
+        if t['t'] == 'call' and not t['dest']['proj'] and is_cfg(t['dest']['l']):
+            p_ = resolved_path(t) or callee_path(t) or ''
+            if re.search(r'^<typstyle_core::Config as std::default::Default>::default$|^typstyle_core::Config::new$', p_):
+                state[t['dest']['l']] = {name: 'call:typstyle_core::config::{impl#0}::default()' for name in fields}
+            else:
+                shape_bad = 'a Config value returned by %s' % p_
+        if t['t'] == 'return':
+            break
+        succ = [x for x in b.succs(bb) if not b.blocks[x]['cleanup']]
+        if t['t'] == 'switch' or len(succ) != 1:
+            shape_bad = 'a branch'
+            break
+        bb = succ[0]
+    if shape_bad or 0 not in state:
+        r.bad({'fn': b.short}, '%s|shape' % b.short, 'option mapping is not a straight-line construction of one Config value (found %s)' % (shape_bad or 'no Config value reaching the return'), b.loc())
         return r
+    for name in fields:
+        desc = state[0][name]
+        cons = {'fn': b.short, 'field': name, 'from': desc}
+        if name in EXPECTED_MAPPING:
+            if desc == EXPECTED_MAPPING[name]:
+                r.ok(cons, 'pure copy of the CLI option')
+            else:
+                r.bad(cons, 'mapping|%s' % name, 'Config.%s is set from %s, expected a pure copy of %s' % (name, desc, EXPECTED_MAPPING[name]), b.loc(last_span))
+        else:
+            if re.match(r'^call:typstyle_core::config::\{impl#\d+\}::default\(\)', desc) or desc.startswith('field:typstyle_core::config::Config.' + name):
+                r.ok(cons, 'library default')
+            else:
+                r.bad(cons, 'mapping|%s' % name, 'Config.%s is set from %s instead of the library default' % (name, desc), b.loc(last_span))
+    return r
     bi, si, s = aggs[0]
     for idx, name in enumerate(fields):
         desc = v.describe_operand(s['rv']['ops'][idx])
